@@ -215,7 +215,7 @@ CONFIG["C01"] = {
                     "two operations whose converted keys coincide under one method (e.g. /p/{a}.json and /p/{a}.xml) are resolved by Go's map iteration order: such descriptions are tagged ~dupkeys and not judged",
                     "a description whose table denco.Build refuses (duplicate placeholder names, '#') is used half-built because the error is ignored (F01b, documented): tagged ~build-refused and not judged"],
     "partial": ["composite segments ({a}-{b}, {id}.json): the choice of route is judged and proved sound, the splitting of values is covered by the correspondence only",
-                "the bridge theorem (trie key of a simple template is matched exactly when the template is instantiated segment by segment) covers routing; that `collectParams` returns the decoded texts under the placeholder names is checked per case by the driver only"],
+                "simple templates (every segment static text or one whole-segment placeholder, no reserved router bytes in static text) are fully proved (`simple_ran_params`); templates outside that class are covered by the trie-level theorems and the driver's Spec only"],
 }
 
 CONFIG['C02'] = {'assumptions': ['scheme names are non-empty (a requirement object with the single key "" would be taken for the empty alternative by '
